@@ -321,6 +321,83 @@ Section Proofs.
     destruct (sel_match k v e) eqn:M; cbn; [exact IH|]. now rewrite M.
   Qed.
 
+  (* --- the same laws stated on the filter itself --- *)
+  Lemma lookup_sel_child k v es : lookup [PSel k v] (Seq es) = Ok (child (PSel k v) (Seq es)).
+  Proof.
+    destruct (child (PSel k v) (Seq es)) as [e|] eqn:C.
+    - now rewrite (lookup_found _ _ _ _ C).
+    - unfold lookup. now rewrite (walk_missing_nocreate _ _ _ _ C).
+  Qed.
+
+  Lemma sel_match_clean k v x : k <> "" -> sel_match k v x = true -> is_null x = false /\ is_empty_map x = false.
+  Proof.
+    intros Hk M. unfold sel_match in M. apply String.eqb_neq in Hk. rewrite Hk in M.
+    destruct x as [| [|kv kvs] |]; try discriminate. auto.
+  Qed.
+
+  Lemma clean_es_result k v x es :
+    k <> "" -> sel_match k v x = true -> clean es = true -> clean (es_result k v x es) = true.
+  Proof.
+    intros Hk M Hc. destruct (sel_match_clean _ _ _ Hk M) as [N E].
+    unfold clean, es_result in *. rewrite forallb_app. apply andb_true_iff. split.
+    - induction es as [|e t IH]; cbn in *; [reflexivity|]. apply andb_true_iff in Hc. destruct Hc as [He Ht].
+      rewrite (IH Ht), andb_true_r. destruct (sel_match k v e); [now rewrite N, E|exact He].
+    - destruct (existsb (sel_match k v) es); cbn; [reflexivity|]. now rewrite N, E.
+  Qed.
+
+  Lemma elem_setter_put_get_thm k v x es :
+    k <> "" -> v <> "" -> clean es = true -> sel_match k v x = true ->
+    exists es', elem_setter nonstr [k] [v] (Some x) (Seq es) = Ok (Seq es', Some x) /\
+                lookup [PSel k v] (Seq es') = Ok (Some x).
+  Proof.
+    intros Hk Hv Hc M. destruct (sel_match_clean _ _ _ Hk M) as [N _].
+    exists (es_result k v x es). split; [now apply elem_setter_spec|].
+    now rewrite lookup_sel_child, (elem_setter_put_get _ _ _ _ M).
+  Qed.
+
+  Lemma elem_setter_get_put_thm k v x es :
+    k <> "" -> v <> "" -> clean es = true ->
+    lookup [PSel k v] (Seq es) = Ok (Some x) -> count_sat (sel_match k v) es = 1 ->
+    elem_setter nonstr [k] [v] (Some x) (Seq es) = Ok (Seq es, Some x).
+  Proof.
+    intros Hk Hv Hc L C1. rewrite lookup_sel_child in L.
+    assert (H0 : child (PSel k v) (Seq es) = Some x) by congruence. clear L.
+    pose proof (child_sel_matches _ _ _ _ H0) as M.
+    destruct (sel_match_clean _ _ _ Hk M) as [N _].
+    rewrite (elem_setter_spec _ _ _ _ Hk Hv N Hc). now rewrite (elem_setter_get_put _ _ _ _ H0 C1).
+  Qed.
+
+  Lemma elem_setter_put_put_thm k v x y es es1 r :
+    k <> "" -> v <> "" -> clean es = true -> sel_match k v x = true -> is_null y = false ->
+    elem_setter nonstr [k] [v] (Some x) (Seq es) = Ok (Seq es1, r) ->
+    elem_setter nonstr [k] [v] (Some y) (Seq es1) = elem_setter nonstr [k] [v] (Some y) (Seq es).
+  Proof.
+    intros Hk Hv Hc M Ny H. destruct (sel_match_clean _ _ _ Hk M) as [N _].
+    rewrite (elem_setter_spec _ _ _ _ Hk Hv N Hc) in H. inv H.
+    rewrite (elem_setter_spec _ _ _ _ Hk Hv Ny (clean_es_result _ _ _ _ Hk M Hc)).
+    rewrite (elem_setter_spec _ _ _ _ Hk Hv Ny Hc). now rewrite (elem_setter_put_put _ _ _ _ _ M).
+  Qed.
+
+  Lemma elem_setter_frame_thm k v w x es es1 r :
+    k <> "" -> v <> "" -> v <> w -> clean es = true -> sel_match k v x = true ->
+    elem_setter nonstr [k] [v] (Some x) (Seq es) = Ok (Seq es1, r) ->
+    lookup [PSel k w] (Seq es1) = lookup [PSel k w] (Seq es).
+  Proof.
+    intros Hk Hv Hvw Hc M H. destruct (sel_match_clean _ _ _ Hk M) as [N _].
+    rewrite (elem_setter_spec _ _ _ _ Hk Hv N Hc) in H. inv H.
+    now rewrite !lookup_sel_child, (elem_setter_frame _ _ _ _ _ Hvw M).
+  Qed.
+
+  Lemma elem_setter_delete_thm k v es :
+    k <> "" -> v <> "" -> clean es = true ->
+    exists es', elem_setter nonstr [k] [v] None (Seq es) = Ok (Seq es', None) /\
+                lookup [PSel k v] (Seq es') = Ok None /\
+                es' = filter (fun e => negb (sel_match k v e)) es.
+  Proof.
+    intros Hk Hv Hc. eexists. split; [now apply elem_setter_delete|]. split; [|reflexivity].
+    now rewrite lookup_sel_child, elem_setter_delete_get.
+  Qed.
+
   (* ---------- FieldClearer ---------- *)
   Lemma remove_first_if_plain name kvs :
     fst (remove_first_if name false kvs) = remove_first name kvs /\
